@@ -70,8 +70,51 @@ def expected(D, selset):
     return ''.join('.' * d + 'c%d[0,1) ' % i for d, i in enumerate(sorted(selset)))
 
 
-def _run(batch):
-    text = source(batch)
+# ---- shape 2: an exception passes through selected / unselected rules and is caught; a later alternative survives
+#   X : one<'x'>   P : seq< one<'a'>, must< one<'b'> > >   W : seq< P >   Q : seq< one<'a'>, one<'c'> >
+#   G : seq< X, sor< try_catch_return_false< W >, Q >, eof >      input "xac"
+# every selection of { G, X, W, P, Q }: expected = the selected ones of G[0,3) { X[0,1) Q[1,3) }; W and P never survive
+SHAPE2 = ['G', 'X', 'W', 'P', 'Q']
+
+
+def cases2():
+    out = []
+    for r in range(len(SHAPE2) + 1):
+        for c in itertools.combinations(SHAPE2, r):
+            out.append(c)
+    return out
+
+
+def source2(batch):
+    parts = [HEADER.replace('const std::string s = "ab";', 'const std::string s = "xac";')]
+    for k, selset in batch:
+        ns = 'h%d' % k
+        parts.append("namespace %s { struct X : one< 'x' > {}; struct P : seq< one< 'a' >, must< one< 'b' > > > {}; struct W : seq< P > {}; struct Q : seq< one< 'a' >, one< 'c' > > {};"
+                     " struct G : seq< X, sor< try_catch_return_false< W >, Q >, eof > {}; }" % ns)
+        for n in selset:
+            parts.append('template<> struct sel< %s::%s > : std::true_type {};' % (ns, n))
+    parts.append('int main() {')
+    for k, _ in batch:
+        parts.append('  run< h%d::G >( %d );' % (k, k))
+    parts.append('  return 0; }')
+    return '\n'.join(parts)
+
+
+def expected2(selset):
+    d = 0
+    out = ''
+    if 'G' in selset:
+        out += 'G[0,3) '
+        d = 1
+    if 'X' in selset:
+        out += '.' * d + 'X[0,1) '
+    if 'Q' in selset:
+        out += '.' * d + 'Q[1,3) '
+    return out
+
+
+def _run(batch, shape=1):
+    text = source(batch) if shape == 1 else source2(batch)
     h = hashlib.sha256()
     h.update(V.tree_hash().encode())
     h.update(text.encode())
@@ -110,7 +153,19 @@ def run(pid, tier, agg, deadline):
                     agg.viol_by_sig[sig] = agg.viol_by_sig.get(sig, 0) + 1
                     if sum(1 for v in agg.vlines if v[1] == sig) < 3:
                         agg.vlines.append(('static', sig, {'chain_depth': D, 'selected': list(selset), 'expected': want, 'observed': got}))
-    agg.evaluations += len(cs)
+    cs2 = list(enumerate(cases2()))
+    for line in _run(cs2, 2).splitlines():
+        k, got = line.split('\t')
+        selset = cs2[int(k)][1]
+        want = expected2(selset)
+        if got != want:
+            bad += 1
+            sig = 'C12|static grammar with a caught exception: tree differs from the selected rules of the surviving alternative'
+            agg.viol_by_sig[sig] = agg.viol_by_sig.get(sig, 0) + 1
+            if sum(1 for v in agg.vlines if v[1] == sig) < 3:
+                agg.vlines.append(('static', sig, {'selected': list(selset), 'expected': want, 'observed': got}))
+    agg.evaluations += len(cs) + len(cs2)
+    agg.counters['static.caught_exception_selections'] = len(cs2)
     agg.counters['static.leaf_optimisation_chains'] = len(cs)
     agg.counters['static.leaf_optimisation_mismatches'] = bad
     agg.samples.append({'unit': 'static', 'case': {'chain_depth': 9, 'selected': [2, 9], 'expected_tree': expected(9, (2, 9))}})
